@@ -395,3 +395,32 @@ func VerifBuildValid(c *Committee) *GMessage {
 	m, _ := verifBuildShape(c, 7, phase, round, valueIdx, jkind, dNone, 0)
 	return m
 }
+
+// VerifBuildValidAt: the valid message of base shape `shape` (0..8) for value index `value` (1..3).
+func VerifBuildValidAt(c *Committee, shape, value int) *GMessage {
+	var phase Phase
+	var round uint64
+	jkind := 0
+	switch shape {
+	case 0:
+		phase, round = QUALITY_PHASE, 0
+	case 1:
+		phase, round = PREPARE_PHASE, 0
+	case 2:
+		phase, round, jkind = PREPARE_PHASE, 1, 1
+	case 3:
+		phase, round, jkind = PREPARE_PHASE, 2, 2
+	case 4:
+		phase, round, jkind = CONVERGE_PHASE, 1, 2
+	case 5:
+		phase, round, jkind = CONVERGE_PHASE, 2, 1
+	case 6:
+		phase, round, jkind = COMMIT_PHASE, 1, 3
+	case 7:
+		phase, round, value = COMMIT_PHASE, 1, 0
+	default:
+		phase, round, jkind = DECIDE_PHASE, 0, 4
+	}
+	m, _ := verifBuildShape(c, 7, phase, round, value, jkind, dNone, 0)
+	return m
+}
